@@ -4,6 +4,7 @@ Metamorphic monitor: result under a policy triple == the strict ('throw') conver
 non-offending element, with the offending ones removed (exclude) or put back unchanged (preserve);
 'offending' is decided per element by a singleton probe of the element type under 'throw'."""
 import datetime as dt
+from fractions import Fraction
 import typing
 from collections import deque
 
@@ -132,8 +133,14 @@ def gen_value(rng, spec, bad=False, depth=0):
         items = [gen_value(rng, spec[1 + min(i, 1)], pattern[i] != ".", depth + 1) for i in range(n)]
         return rng.choice([tuple, list])(items)
     n = rng.choice([0, 1, 2, 3, 4, 5])
-    pattern = gen_pattern(rng, n)
+    if depth == 0 and rng.random() < 0.08:
+        n = rng.randint(32, 40)    # a bulk array (repeated placeholders, equal values of different types)
+    pattern = gen_pattern(rng, n) if n <= 5 else "".join(rng.choice("....x") for _ in range(n))
     items = [gen_value(rng, spec[1], pattern[i] != ".", depth + 1) for i in range(n)]
+    if n > 5 and spec[1][0] == "leaf":
+        # an offending item followed by items that are == to it but of another type (Fraction(7), 7, 7.0 / True, 1)
+        at = rng.randint(0, n - 4)
+        items[at:at + 4] = rng.choice([[Fraction(7), 7, 7.0, "7"], [Fraction(7), 7.0, 7, Fraction(7)], [True, 1, 1.0, "1"], ["x", "x", "x", 3]])
     # deque is not array-like for the converters (a deque given for a List becomes [deque]): only for deque targets
     shape = rng.choice(["list", "list", "tuple", "deque" if k == "deque" else "list", "set"])
     try:
